@@ -43,7 +43,7 @@ COMPONENTS = {
 ASSUMPTIONS = [
     "the boundary u == p is unconstrained and u = 0.0 is never scripted (measure zero under a continuous source)",
     "per-row scripts are gating only while predict consumes exactly one rand-family call of length n",
-    "statistical fallback over 400 integer seeds uses a 7-sigma band (+1/S)",
+    "statistical fallback over 400 integer seeds flags a row only if the exact two-sided binomial tail is < 1e-12",
     "query sets only contain sensitive-feature values seen in training",
 ]
 
@@ -429,6 +429,16 @@ def _scripted_regression(ctx, est, Xq, op, pred_by_t, w):
             return
 
 
+def _binom_outlier(k, S, p, alpha=1e-12):
+    """True if observing k successes in S Bernoulli(p) trials has two-sided exact tail probability < alpha."""
+    from scipy.stats import binom
+
+    p = min(1.0, max(0.0, p))
+    if p in (0.0, 1.0):
+        return k != int(round(p * S))
+    return bool(binom.cdf(k, S, p) < alpha or binom.sf(k - 1, S, p) < alpha)
+
+
 def _statistical(ctx, est, Xq, kw, fam, p, pred_by_t, w, plan):
     S = 400
     nq = len(Xq)
@@ -442,11 +452,11 @@ def _statistical(ctx, est, Xq, kw, fam, p, pred_by_t, w, plan):
                 return
             cnt += np.asarray(out, dtype=float)
         freq = cnt / S
-        band = 7 * np.sqrt(p * (1 - p) / S) + 1.0 / S
-        bad = np.abs(freq - p) > band
+        bad = np.array([_binom_outlier(int(cnt[i]), S, float(p[i])) for i in range(nq)])
         if bad.any():
             i = int(np.flatnonzero(bad)[0])
-            ctx.fail("C10.frequency", f"row {i}: label-1 frequency over {S} seeds is {freq[i]:.4f}, reported p={p[i]:.4f} (7-sigma band {band[i]:.4f})")
+            ctx.fail("C10.frequency", f"row {i}: label-1 frequency over {S} seeds is {freq[i]:.4f}, reported p={p[i]:.4f} "
+                     f"(exact binomial tail < 1e-12)")
     else:
         hits = [dict() for _ in range(nq)]
         for s in range(S):
@@ -464,9 +474,9 @@ def _statistical(ctx, est, Xq, kw, fam, p, pred_by_t, w, plan):
                     v = float(pred_by_t[t][i])
                     mass[v] = mass.get(v, 0.0) + float(w[t])
             for v in set(mass) | set(hits[i]):
-                q = mass.get(v, 0.0)
+                q = min(1.0, mass.get(v, 0.0))
                 f = hits[i].get(v, 0) / S
-                if abs(f - q) > 7 * np.sqrt(q * (1 - q) / S) + 1.0 / S:
+                if _binom_outlier(hits[i].get(v, 0), S, q):
                     ctx.fail("C10.frequency", f"row {i}: value {v} returned with frequency {f:.4f} over {S} seeds, its predictors' total weight is {q:.4f}",
                              {"weights_unsorted": unsorted})
                     return
